@@ -436,8 +436,10 @@ B_Fault(r) ==
      IN /\ dead' = [q \in Reqs |-> IF q \in V /\ k \in {"close", "reset", "garbage"} THEN k
                                     ELSE IF q = r /\ k = "rststream" THEN "rst" ELSE dead[q]]
         /\ stalled' = [q \in Reqs |-> stalled[q] \/ (q \in V /\ k \in {"stall", "connstall"})]
-        /\ hit' = [q \in Reqs |-> IF q \in V /\ hit[q] = "none" /\ cprog[q] = 0
-                                    THEN (IF k \in {"stall", "connstall"} THEN "stall" ELSE "early") ELSE hit[q]]
+        \* (ghost) what the environment did to a request nothing was forwarded for yet; a kill supersedes a stall
+        /\ hit' = [q \in Reqs |-> IF q \in V /\ cprog[q] = 0 /\ answer[q] = "none"
+                                    THEN (IF k \in {"stall", "connstall"} THEN (IF hit[q] = "none" THEN "stall" ELSE hit[q]) ELSE "early")
+                                    ELSE hit[q]]
         \* a shared h2c connection silenced inside a frame stays in the pool: later requests linked to it stall too
         /\ pool' = [pool EXCEPT ![link[r]] = IF k = "connstall" THEN "mute" ELSE @]
   /\ actor' = r
@@ -451,7 +453,7 @@ B_Between(r) ==
   /\ pool' = [pool EXCEPT !["B1"] = IF @ = "up" THEN "peerclosed" ELSE @]
   /\ LET V == IF sc.back = "h2" THEN {q \in Reqs : Active(q) /\ link[q] = "B1"} ELSE {}
      IN /\ dead' = [q \in Reqs |-> IF q \in V THEN rq[r].fault ELSE dead[q]]
-        /\ hit' = [q \in Reqs |-> IF q \in V /\ hit[q] = "none" /\ cprog[q] = 0 THEN "early" ELSE hit[q]]
+        /\ hit' = [q \in Reqs |-> IF q \in V /\ cprog[q] = 0 /\ answer[q] = "none" THEN "early" ELSE hit[q]]
   /\ actor' = r
   /\ UNCHANGED <<sc, rq, phase, answer, cause, attempts, tried, link, bprog, cprog, stalled, fconn, bclock, fclock, wait, elapsed>>
 
